@@ -37,7 +37,8 @@ def meta(tier, seed):
         "oracle": "output digest of the subject script (predict and predict_expectations results, in order) equals the "
                   "digest of the same script run alone in the same process; (b) equals the digest computed in the parent",
         "bounds": {"merges": 56, "interferers": ["same policy-tuple objects", "default-constructed tuples (subject too)",
-                                                 "a TreeBandit bandit"],
+                                                 "a TreeBandit bandit", "code that draws from and re-seeds numpy's and "
+                                                 "random's process-wide generators"],
                    "hash_seeds": ["0", "1", "4242", "random"],
                    "tree_driver": "three identical feature columns, one-hot queries, interferer seed = first seed whose "
                                   "stand-alone DecisionTreeRegressor splits on a different column"},
@@ -95,10 +96,28 @@ def scripts(ln, nn, kind, seed):
     tree = nn == "tree"
     x, q = (XT, QT) if tree else (X2, Q2)
     lp_s, np_s = tuples(ln, nn, default=(kind == "default"))
+    lp_i = np_i = None
+    icf, ix = cf, x
+    if kind == "global":
+        # not a bandit at all: code that uses (and re-seeds) the process-wide generators between the subject's calls
+        import random as _random
+
+        def g1():
+            np.random.seed(seed + 17)
+            _random.seed(seed + 17)
+
+        def g2():
+            np.random.random(7)
+            np.random.shuffle(list(range(5)))
+            _random.random()
+
+        def g3():
+            np.random.seed(None)
+            np.random.randint(0, 10, size=3)
     if kind == "tree":
         lp_i, np_i = LearningPolicy.EpsilonGreedy(0), NeighborhoodPolicy.TreeBandit()
         icf, ix = False, XT
-    else:
+    elif kind != "global":
         lp_i, np_i = lp_s, np_s                                # the very same tuple objects
         icf, ix = cf, x
     s2 = other_seed(seed)
@@ -139,6 +158,8 @@ def scripts(ln, nn, kind, seed):
 
     def i_predict():
         E["i"].predict() if icf else E["i"].predict([list(v) for v in ix[:2]])
+    if kind == "global":
+        return [s_construct, s_fit, s_predict, s_pfit, s_expect], [g1, g2, g3]
     return [s_construct, s_fit, s_predict, s_pfit, s_expect], [i_construct, i_fit, i_predict]
 
 
@@ -170,7 +191,7 @@ def all_merges():
 
 def part_a(shard, acc):
     ln, nn, seed = shard["ln"], shard["nn"], shard["seed"]
-    for kind in ("same", "default", "tree"):
+    for kind in ("same", "default", "tree", "global"):
         try:
             alone = run_merge(ln, nn, kind, seed, "SSSSS")
             again = run_merge(ln, nn, kind, seed, "SSSSS")
